@@ -32,12 +32,34 @@ Definition dec_duo (cs : list N) : option duo :=
 
 Definition is_pub (p : pkt) : bool := k_type p =? T_PUBLISH.
 
-(* accepted publishes of one side: (qos, tag = payload length, topic) *)
-Definition accepted_pubs (l : list obs) : list (N * N * topic) :=
+(* accepted publishes of one side: (qos, tag = payload length, topic), and the identifier of each *)
+Definition accepted_with_pid (l : list obs) : list (N * N * topic * N) :=
   flat_map (fun o => match ob_op o with
                      | OSend p => if is_pub p && negb (existsb is_error (ob_evs o)) && negb (ob_pan o)
-                                  then [(k_qos p, k_paylen p, k_topic p)] else []
+                                  then [(k_qos p, k_paylen p, k_topic p, k_pid p)] else []
                      | _ => [] end) l.
+Definition accepted_pubs (l : list obs) : list (N * N * topic) := map fst (accepted_with_pid l).
+
+(* known finding F-01a: identifiers that a side released while RESUMING a session (CONNACK received by
+   the client / sent by the server): stored packets dropped because their stored form — full topic, no
+   alias — is larger than the peer's Maximum Packet Size although the packet that was sent (with the
+   alias) fitted.  The receiver may already hold such a QoS 2 message, keeps its identifier "handled",
+   and swallows the next message that reuses the identifier; the dropped message itself may be lost. *)
+Definition is_resume_call (o : obs) : bool :=
+  match ob_op o with
+  | OSend p => k_type p =? T_CONNACK
+  | ORecv _ (PROk p) => k_type p =? T_CONNACK
+  | _ => false
+  end.
+Definition dropped_on_resume (l : list obs) : list N :=
+  flat_map (fun o => if is_resume_call o then released (ob_evs o) else []) l.
+Definition split_known (l : list obs) : list (N * N * topic) * list (N * N * topic) :=
+  let d := dropped_on_resume l in
+  let a := accepted_with_pid l in
+  (map fst (filter (fun x => negb (existsb (N.eqb (snd x)) d)) a),
+   map fst (filter (fun x => existsb (N.eqb (snd x)) d) a)).
+Definition K_F01A : N := 93.
+
 (* publishes notified to the application of one side: (tag, topic) *)
 Definition notified_pubs (l : list obs) : list (N * topic) :=
   flat_map (fun o => map (fun q => (k_paylen q, k_topic q)) (filter is_pub (notifies (ob_evs o)))) l.
@@ -93,10 +115,12 @@ Definition mon_c01 (cs : list N) : list N :=
         if negb (du_drained d) then [0; V_MONITOR; 3]                (* the exchange does not come to rest *)
         else if negb (du_bad d =? 0) then [0; V_MONITOR; 4; du_bad d]  (* a delivered payload differs *)
         else
-          match judge_delivery (du_losses d) (accepted_pubs oc) (notified_pubs os) with
+          let '(ck, cd) := split_known oc in
+          let '(sk, sd) := split_known os in
+          match judge_delivery (du_losses d) ck (notified_pubs os) with
           | (_ :: _) as v => 0 :: V_MONITOR :: v ++ [0]
           | [] =>
-            match judge_delivery (du_losses d) (accepted_pubs os) (notified_pubs oc) with
+            match judge_delivery (du_losses d) sk (notified_pubs oc) with
             | (_ :: _) as v => 0 :: V_MONITOR :: v ++ [1]
             | [] =>
               match last_state (du_c d), last_state (du_s d) with
@@ -104,7 +128,13 @@ Definition mon_c01 (cs : list N) : list N :=
                 match quiescent (tr_cfg (du_c d)) c, quiescent (tr_cfg (du_s d)) s with
                 | (_ :: _) as v, _ => 0 :: V_MONITOR :: 8 :: v ++ [0]
                 | _, (_ :: _) as v => 0 :: V_MONITOR :: 8 :: v ++ [1]
-                | [], [] => []
+                | [], [] =>
+                  (* nothing else is wrong: the messages whose identifier went through an oversize drop on resume *)
+                  match judge_delivery (du_losses d) cd (notified_pubs os), judge_delivery (du_losses d) sd (notified_pubs oc) with
+                  | (_ :: _) as v, _ => 0 :: V_MONITOR :: K_F01A :: v ++ [0]
+                  | _, (_ :: _) as v => 0 :: V_MONITOR :: K_F01A :: v ++ [1]
+                  | [], [] => []
+                  end
                 end
               | _, _ => []
               end
